@@ -90,6 +90,8 @@ def cases(rng, tier):
     yield from int_cases(rng, tier)
     yield from ext_cases(rng, tier)
     yield from float_cases(rng, tier)
+    yield from smallest_cases(rng, tier)
+    yield from column_cases(rng, tier)
 
 
 def int_cases(rng, tier):
@@ -217,6 +219,31 @@ def ext_cases(rng, tier):
             if c[2] != "0" or rng.random() < 0.5:
                 xs = [x if abs(x) < 100000 else x % 1000 for x in xs]     # keep packed streams (and model recursion) short
             yield {"kind": "chain", "ops": [f"chain {c} {t} {_ints(xs)}"], "rt": {"enc": "compress_int", "dtype": t, "data": xs}}
+
+
+def smallest_cases(rng, tier):
+    """_to_smallest_integer_type on wide (int64/uint64) arrays with values on the type boundaries, and compress() on them."""
+    n_cases = 150 if tier == "quick" else 3000
+    bounds = [2 ** 7, 2 ** 8, 2 ** 15, 2 ** 16, 2 ** 31, 2 ** 32]
+    for _ in range(n_cases):
+        n = rng.choice([1, 2, 3, 5])
+        xs = []
+        for _ in range(n):
+            b = rng.choice(bounds)
+            xs.append(rng.choice([b, b - 1, b + 1, -b, -b - 1, -b + 1, 0, 1, -1, rng.randint(-300, 300)]))
+        if rng.random() < 0.4:
+            xs = [abs(x) for x in xs]
+        if rng.random() < 0.05:
+            xs = []
+        yield {"kind": "smallest", "ops": [f"smallest {_ints(xs)}"], "rt": {"enc": "compress_int", "dtype": "i64", "data": xs}}
+
+
+def column_cases(rng, tier):
+    """oracle-only: BinaryCIFColumn with a mask: as_array() in every flavour must not alter the column; write -> read equal."""
+    for _ in range(40 if tier == "quick" else 800):
+        yield {"kind": "column", "rt": {"enc": "column", "n": rng.choice([1, 2, 4, 7]), "seed": rng.randint(0, 10 ** 9),
+                                        "flavour": rng.choice(["str", "int", "float"]),
+                                        "call": rng.choice(["as_array()", "as_array(str)", "as_array(masked)", "as_array(int,-1)", "as_array(float,nan)"])}}
 
 
 def float_cases(rng, tier):
@@ -355,6 +382,15 @@ def run_impl(case):
         elif w[0] == "bytes_dec":
             t, bs = w[1], _parse(w[2])
             out.append(_fmt(lambda: "ok " + _ints(E.ByteArrayEncoding(type=np.dtype(NP[t])).decode(bytes(bs)))))
+        elif w[0] == "smallest":
+            from biotite.structure.io.pdbx.compress import _to_smallest_integer_type
+            xs = _parse(w[1])
+
+            def fsm():
+                arr = np.array(xs, dtype=np.uint64 if (xs and min(xs) >= 0 and max(xs) >= 2 ** 63) else np.int64)
+                dt = _to_smallest_integer_type(arr).dtype
+                return "ok " + {"int8": "i8", "int16": "i16", "int32": "i32", "int64": "i64", "uint8": "u8", "uint16": "u16", "uint32": "u32", "uint64": "u64"}[dt.name]
+            out.append(_fmt(fsm))
         elif w[0] == "chain":
             c, t, xs = w[1], w[2], _parse(w[3])
 
@@ -531,6 +567,8 @@ def oracle(case):
             break
     elif kind == "file":
         v += _file_roundtrip(rt)
+    elif kind == "column":
+        v += _column_check(rt)
     return v
 
 
@@ -542,6 +580,50 @@ def _compress_float(xs, ft, tol):
     c = _compress_fn(bcif.BinaryCIFData(arr), float_tolerance=tol)
     back = bcif.BinaryCIFData.deserialize(c.serialize()).array
     return [float(x) for x in back], [type(e).__name__ for e in c.encoding]
+
+
+def _column_check(rt):
+    """A masked column is not altered by reading it through as_array(), and survives serialize -> deserialize."""
+    import random
+
+    import numpy as np
+    from biotite.structure.io.pdbx import bcif
+    r = random.Random(rt["seed"])
+    n = rt["n"]
+    if rt["flavour"] == "str":
+        arr = np.array([r.choice(["A", "BB", "", "x y", "HOH", ".", "?"]) for _ in range(n)], dtype="U")
+    elif rt["flavour"] == "int":
+        arr = np.array([r.randint(-500, 500) for _ in range(n)], dtype=np.int32)
+    else:
+        arr = np.array([round(r.uniform(-9, 9), 2) for _ in range(n)], dtype=np.float64)
+    mask = np.array([r.choice([0, 0, 1, 2]) for _ in range(n)], dtype=np.uint8)
+    col = bcif.BinaryCIFColumn(arr.copy(), mask.copy())
+    call = rt["call"]
+    try:
+        if call == "as_array()":
+            col.as_array()
+        elif call == "as_array(str)":
+            col.as_array(str)
+        elif call == "as_array(masked)":
+            col.as_array(str, masked_value="M")
+        elif call == "as_array(int,-1)":
+            col.as_array(int, masked_value=-1)
+        else:
+            col.as_array(float, masked_value=float("nan"))
+    except Exception:
+        pass     # a refused conversion is fine; what matters is that the column is untouched
+    out = []
+    after = col.data.array
+    if len(after) != len(arr) or any(str(a) != str(b) for a, b in zip(arr, after)):
+        out.append(("C05/column/as_array-alters-data", f"{call} changed the column data {arr.tolist()} (mask {mask.tolist()}) into {after.tolist()}"))
+    try:
+        back = bcif.BinaryCIFColumn.deserialize(col.serialize())
+        got, gm = back.data.array, back.mask.array if back.mask is not None else None
+    except Exception as e:  # noqa: BLE001
+        return out + [("C05/column/serialize-fails", f"{call} then serialize: {type(e).__name__}: {e}")]
+    if [str(x) for x in got] != [str(x) for x in arr] or gm is None or [int(x) for x in gm] != [int(x) for x in mask]:
+        out.append(("C05/column/roundtrip", f"{arr.tolist()} mask {mask.tolist()} -> {got.tolist()} mask {None if gm is None else gm.tolist()}"))
+    return out
 
 
 def _file_roundtrip(rt):
@@ -589,7 +671,7 @@ def _file_roundtrip(rt):
 
 
 def nontrivial(case, impl_out):
-    if case["kind"] == "file":
+    if case["kind"] in ("file", "column"):
         return True
     data = (case.get("rt") or {}).get("data")
     if data is not None and len(set(data)) >= 2:
